@@ -596,6 +596,8 @@ _OPTIONAL_FIELDS = {
     "MHLCreatorInfo": {"location", "comment"},
     "MHLMediaHash": {"previous_path", "file_size", "last_modification_date"},
     "MHLHashEntry": {"hash_date"},
+    # read from an attribute the schema declares optional (`attrib.get("sequencenr")`): None for chain entries written without it
+    "MHLChainGeneration": {"generation_number"},
 }
 
 
@@ -638,6 +640,11 @@ def _none_text_rule(report, p):
                     for a in args:
                         if not isinstance(a, (ast.Starred, ast.Dict)):
                             sites.append((c, a))
+                # conversions that raise on None (`int(None)`, `len(None)`, `None.strip()`) - the same traceback at the same point of the writer
+                if isinstance(fn, ast.Name) and fn.id in ("int", "float", "len", "abs", "round") and len(c.args) == 1 and isinstance(c.args[0], ast.Attribute):
+                    sites.append((c, c.args[0]))
+                if isinstance(fn, ast.Attribute) and isinstance(fn.value, ast.Attribute) and not isinstance(parent(c), ast.Expr):
+                    sites.append((c, fn.value))
         for holder, val in sites:
             for alt_e, local_guards in alternatives(val):
                 if not isinstance(alt_e, ast.Attribute):
@@ -648,7 +655,7 @@ def _none_text_rule(report, p):
                     t = None
                 cls = t[1].split(".")[-1] if t and t[0] == "C" else None
                 if cls is None and isinstance(alt_e.value, ast.Name):
-                    cls = {"author": "MHLAuthor", "creator_info": "MHLCreatorInfo", "media_hash": "MHLMediaHash", "hash_entry": "MHLHashEntry"}.get(alt_e.value.id)
+                    cls = {"author": "MHLAuthor", "creator_info": "MHLCreatorInfo", "media_hash": "MHLMediaHash", "hash_entry": "MHLHashEntry", "generation": "MHLChainGeneration"}.get(alt_e.value.id)
                 if cls not in _OPTIONAL_FIELDS or alt_e.attr not in _OPTIONAL_FIELDS[cls]:
                     continue
                 n += 1
@@ -660,7 +667,7 @@ def _none_text_rule(report, p):
                 for tst, lab in local_guards:
                     atoms += _ad(tst, lab)
                 ok = any((a_ == me and l_ == "T") or (a_ in (f"{me} is None", f"{me} == None") and l_ == "F") for a_, l_ in atoms)
-                r.check(ok, f, holder, f"`{norm(val)[:60]}` can hand `{me}` to the element builder when it is None (the option was not given): lxml raises TypeError('Argument must be bytes or unicode, got NoneType') while the manifest is being written - exit 1, the temporary file stays behind, and a first generation leaves an ascmhl folder without chain file on which every later command aborts", construct=f"{f.name}: {me} may be None as text")
+                r.check(ok, f, holder, f"`{norm(val)[:60]}` can hand `{me}` to the element builder (or to a conversion that raises on None) when it is None (the option / attribute was not given): TypeError while the manifest is being written - exit 1, the temporary file stays behind, and a first generation leaves an ascmhl folder without chain file on which every later command aborts", construct=f"{f.name}: {me} may be None as text")
     if n == 0:
         raise AnalysisError("no optional model field is written as element text in the XML writers (anchor vanished)")
     r.check(True, None, None, "")
